@@ -128,7 +128,7 @@ func (e *Engine) funcRef(vc *VC, f *ssa.Function) string {
 func newVC(e *Engine, key string, c *Contract) *VC {
 	vc := &VC{eng: e, S: newSorts(), fnKey: key, contract: c, initHeap: Heap{}, heapSort: map[string]string{},
 		frames: map[string][]frameAx{}, ghosts: map[string]Val{}, mapKeys: map[string][]string{}, assumed: map[string]bool{},
-		inlined: map[string]bool{}, params: map[string]Val{}, ghostByKey: map[string][]string{}}
+		inlined: map[string]bool{}, params: map[string]Val{}, ghostByKey: map[string][]string{}, frameSk: map[string]string{}}
 	vc.alloc0 = "alloc0"
 	vc.declare("alloc0", "Int")
 	vc.assert("(>= alloc0 1)")
@@ -177,6 +177,9 @@ func (e *Engine) verifyFunc(key string) (*VC, error) {
 		}
 		v := vc.mkVal(n, p.Type())
 		fr.vals[p] = v
+		if p.Name() == "_" {
+			continue
+		}
 		vc.params[p.Name()] = v
 		vc.consts = append(vc.consts, modelConst{n, srt, "parameter " + p.Name()})
 	}
@@ -232,29 +235,46 @@ func (e *Engine) verifyFunc(key string) (*VC, error) {
 	return vc, nil
 }
 
-// frameCheck: cells that existed at entry change only where the contract says so.
-func (vc *VC) frameCheck(fr *frame, c *Contract, st *state, ri int, pos string) {
-	if c.ModAll {
-		return
+// frameGoals: for every heap key whose contents differ from the entry state, the cell at a fixed
+// skolem reference (one per key, chosen before execution starts) that existed at entry equals the
+// entry contents with the locations of the modifies clause overwritten by their current values.
+// Checked at every return (the frame condition) and used as an automatic invariant of every loop.
+type namedGoal struct{ key, goal string }
+
+func (vc *VC) frameSkolem(key string) string {
+	if s, ok := vc.frameSk[key]; ok {
+		return s
 	}
-	pre := &state{reach: st.reach, heap: vc.entryHeap.clone()}
-	env := vc.specEnv(fr, pre, nil)
-	env.fr = nil
-	// modifies expressions are evaluated in the entry state
-	var locs []modLoc
-	for _, m := range c.Modifies {
-		ls, err := env.modLocs(m)
-		if err != nil {
-			vc.errorf("modifies %s: %v", exprString(m), err)
-			continue
+	s := q("frame.r:" + key)
+	vc.pre = append(vc.pre, fmt.Sprintf("(declare-const %s Int)", s))
+	vc.frameSk[key] = s
+	return s
+}
+
+func (vc *VC) frameGoals(fr *frame, c *Contract, st *state) []namedGoal {
+	if c == nil || c.ModAll {
+		return nil
+	}
+	if vc.frameLocs == nil {
+		pre := &state{reach: "true", heap: vc.entryHeap.clone()}
+		env := vc.specEnv(fr, pre, nil)
+		env.fr = nil
+		vc.frameLocs = []modLoc{}
+		for _, m := range c.Modifies {
+			ls, err := env.modLocs(m)
+			if err != nil {
+				vc.errorf("modifies %s: %v", exprString(m), err)
+				continue
+			}
+			vc.frameLocs = append(vc.frameLocs, ls...)
 		}
-		locs = append(locs, ls...)
 	}
 	var keys []string
 	for k := range st.heap {
 		keys = append(keys, k)
 	}
 	sort.Strings(keys)
+	var goals []namedGoal
 	for _, k := range keys {
 		if k == "$alloc" || strings.HasPrefix(k, "IT:") {
 			continue
@@ -264,17 +284,22 @@ func (vc *VC) frameCheck(fr *frame, c *Contract, st *state, ri int, pos string) 
 		if final == init {
 			continue
 		}
-		// expected: the entry contents with the declared locations overwritten by their final values
 		expected := init
-		for _, ml := range locs {
+		for _, ml := range vc.frameLocs {
 			if ml.key == k {
 				expected = ml.overwrite(vc, expected, final)
 			}
 		}
-		r0 := vc.freshConst("frame.r", "Int")
+		r0 := vc.frameSkolem(k)
 		vc.instFrames(k, r0)
-		goal := fmt.Sprintf("(=> (< %s alloc0) (= (select %s %s) (select %s %s)))", r0, final, r0, expected, r0)
-		vc.oblige("frame", fmt.Sprintf("frame at return %d: %s changes only where modifies allows", ri, k), nil, pos, st.reach, goal)
+		goals = append(goals, namedGoal{k, fmt.Sprintf("(=> (< %s alloc0) (= (select %s %s) (select %s %s)))", r0, final, r0, expected, r0)})
+	}
+	return goals
+}
+
+func (vc *VC) frameCheck(fr *frame, c *Contract, st *state, ri int, pos string) {
+	for _, g := range vc.frameGoals(fr, c, st) {
+		vc.oblige("frame", fmt.Sprintf("frame at return %d: %s changes only where modifies allows", ri, g.key), nil, pos, st.reach, g.goal)
 	}
 }
 
